@@ -576,9 +576,22 @@ func ReadKeysAndCertElgAndEd25519(data []byte) (keysAndCert *KeysAndCert, remain
 	if err != nil {
 		return
 	}
+	if err = requireKeyTypes(keysAndCert.KeyCertificate, key_certificate.KEYCERT_SIGN_ED25519, key_certificate.KEYCERT_CRYPTO_ELG); err != nil {
+		return nil, remainder, err
+	}
 
 	logElgEd25519Success(len(keysAndCert.Padding), len(remainder))
 	return
+}
+
+// requireKeyTypes rejects a key certificate that declares other key types than the ones a
+// key-type-specific reader has just extracted; the resulting KeysAndCert could not be serialised.
+func requireKeyTypes(keyCert *key_certificate.KeyCertificate, signingType, cryptoType int) error {
+	if keyCert.SigningPublicKeyType() != signingType || keyCert.PublicKeyType() != cryptoType {
+		return oops.Errorf("key certificate declares key types (signing %d, crypto %d), expected (%d, %d)",
+			keyCert.SigningPublicKeyType(), keyCert.PublicKeyType(), signingType, cryptoType)
+	}
+	return nil
 }
 
 // readKeysAndCertNonKeyCert handles parsing of KeysAndCert with non-KEY certificate types.
@@ -686,6 +699,9 @@ func ReadKeysAndCertX25519AndEd25519(data []byte) (keysAndCert *KeysAndCert, rem
 	keysAndCert.KeyCertificate, remainder, err = extractKeyCertificate(data, totalKeySize)
 	if err != nil {
 		return
+	}
+	if err = requireKeyTypes(keysAndCert.KeyCertificate, key_certificate.KEYCERT_SIGN_ED25519, key_certificate.KEYCERT_CRYPTO_X25519); err != nil {
+		return nil, remainder, err
 	}
 
 	log.WithFields(logger.Fields{
